@@ -442,6 +442,14 @@ def c06(w):
                 if selfish:
                     if "cease" in mine or "exit" in mine:
                         v.append(("remove-self-closed:" + ocls(o), "doer %s removing itself was closed inside remove()" % a))
+                    elif (a == c["by"] and o == "" and w.result == "return" and w.limit is None
+                          and not any(x is not c and a in x["args"] for x in w.calls)):
+                        # it keeps running until it returns: in a run that ends on its own, nothing else may end it
+                        end = getattr(w, "end", len(tr))
+                        after = [e[1] for e in tr[t1:end] if e[0] == a]
+                        if "cease" in after or "clean" not in after:
+                            v.append(("remove-self-not-run-to-its-return:" + ocls(o),
+                                      "doer %s removed itself in cycle %d; afterwards it saw %s, not its own return" % (a, c["cycle"], after[-4:])))
                     continue
                 if entered and not exited:
                     if mine != ["cease", "exit"]:
